@@ -102,6 +102,11 @@ pub struct RPay {
     pub sources: Vec<Bound>,
     /// lax only: the length field of this layer promised more bytes than were present
     pub incomplete: bool,
+    /// lax only, payload of a UDP header: the UDP length field promises more bytes than are present.
+    /// The properties tie `incomplete` to link- and network-layer length fields; whether the flag of a
+    /// *transport* payload (`LaxPayloadSlice::Udp`) also reflects the UDP length field is not fixed by
+    /// them (the variant's documentation says "length in UDP or IP header"): either answer is accepted.
+    pub udp_promises_more: bool,
 }
 
 #[derive(Clone, Debug)]
@@ -201,7 +206,7 @@ impl Win {
         v
     }
     fn pay(&self, id: PayId) -> RPay {
-        RPay { off: self.off, len: self.avail(), id, fragmented: false, sources: self.sources(), incomplete: false }
+        RPay { off: self.off, len: self.avail(), id, fragmented: false, sources: self.sources(), incomplete: false, udp_promises_more: false }
     }
 }
 
@@ -486,7 +491,7 @@ impl<'a> Dec<'a> {
         let mut nw = w.clone();
         nw.off = o + total;
         nw.end = o + total;
-        let pay = RPay { off: nw.off, len: 0, id: PayId::Empty, fragmented: false, sources: vec![Bound::Slice], incomplete: false };
+        let pay = RPay { off: nw.off, len: 0, id: PayId::Empty, fragmented: false, sources: vec![Bound::Slice], incomplete: false, udp_promises_more: false };
         self.out.layers.push(RLayer { kind: LK::Arp, off: o, len: total, pay });
         *w = nw;
     }
@@ -814,6 +819,7 @@ impl<'a> Dec<'a> {
                 }
                 let mut pay = nw.pay(PayId::Data);
                 pay.incomplete = incomplete;
+                pay.udp_promises_more = self.lax && ul > a;
                 self.out.layers.push(RLayer { kind: LK::Udp, off: o, len: 8, pay });
                 *w = nw;
             }
